@@ -523,17 +523,18 @@ static void q_once(const plan_t *p)
             ncbl = 0; nexp_clear = 0;
             switch (kind) {
             case 0:
-                fn %= 5; i2 = (y + 1) % NGP;
+                fn %= 6; i2 = (y + 1) % NGP;
                 switch (fn) {
                 case 0: fname = "guarded_get"; g_cur_ctx = fname; TRY(cg = cstl_guarded_ptr_get(&gp[NGP])); break;
                 case 1: fname = "guarded_get_const"; TRY(cg = cstl_guarded_ptr_get_const(&gp[NGP])); break;
                 case 2: fname = "guarded_copy-src"; TRY(cstl_guarded_ptr_copy(&gp[i2], &gp[NGP])); break;
                 case 3: fname = "guarded_swap-a"; TRY(cstl_guarded_ptr_swap(&gp[NGP], &gp[i2])); break;
-                default: fname = "guarded_swap-b"; TRY(cstl_guarded_ptr_swap(&gp[i2], &gp[NGP])); break;
+                case 4: fname = "guarded_swap-b"; TRY(cstl_guarded_ptr_swap(&gp[i2], &gp[NGP])); break;
+                default: fname = "guarded_swap-both"; TRY(cstl_guarded_ptr_swap(&gp[NGP], &gp[NGP])); break;
                 }
                 break;
             case 1:
-                fn %= 7; i2 = (y + 1) % NUP;
+                fn %= 8; i2 = (y + 1) % NUP;
                 switch (fn) {
                 case 0: fname = "unique_get"; TRY(cg = cstl_unique_ptr_get(&up[NUP])); break;
                 case 1: fname = "unique_get_const"; TRY(cg = cstl_unique_ptr_get_const(&up[NUP])); break;
@@ -541,11 +542,12 @@ static void q_once(const plan_t *p)
                 case 3: fname = "unique_swap-a"; TRY(cstl_unique_ptr_swap(&up[NUP], &up[i2])); break;
                 case 4: fname = "unique_swap-b"; TRY(cstl_unique_ptr_swap(&up[i2], &up[NUP])); break;
                 case 5: fname = "unique_reset"; TRY(cstl_unique_ptr_reset(&up[NUP])); break;
+                case 6: fname = "unique_swap-both"; TRY(cstl_unique_ptr_swap(&up[NUP], &up[NUP])); break;
                 default: fname = "unique_alloc"; TRY(cstl_unique_ptr_alloc(&up[NUP], 8, NULL, NULL)); break;
                 }
                 break;
             case 2:
-                fn %= 11; i2 = partner % NSP; if (i2 == y) i2 = (y + 1) % NSP;
+                fn %= 12; i2 = partner % NSP; if (i2 == y) i2 = (y + 1) % NSP;
                 switch (fn) {
                 case 0: fname = "shared_get"; TRY(cg = cstl_shared_ptr_get(&sp[NSP])); break;
                 case 1: fname = "shared_get_const"; TRY(cg = cstl_shared_ptr_get_const(&sp[NSP])); break;
@@ -557,6 +559,7 @@ static void q_once(const plan_t *p)
                 case 7: fname = "shared_reset"; TRY(cstl_shared_ptr_reset(&sp[NSP])); break;
                 case 8: fname = "shared_alloc"; TRY(cstl_shared_ptr_alloc(&sp[NSP], 8, NULL)); break;
                 case 9: fname = "weak_from-src"; i2 = partner % NWP; TRY(cstl_weak_ptr_from(&wp[i2], &sp[NSP])); break;
+                case 11: fname = "shared_swap-both"; TRY(cstl_shared_ptr_swap(&sp[NSP], &sp[NSP])); break;
                 default: fname = "weak_lock-dst"; i2 = partner % NWP; TRY(cstl_weak_ptr_lock(&wp[i2], &sp[NSP])); break;
                 }
                 /* share-src resets its (honest) destination before it touches the stray source */
@@ -573,7 +576,7 @@ static void q_once(const plan_t *p)
                 case 3: fname = "weak_swap-b"; TRY(cstl_weak_ptr_swap(&wp[(y + 1) % NWP], &wp[NWP])); break;
                 case 4: fname = "weak_reset"; TRY(cstl_weak_ptr_reset(&wp[NWP])); break;
                 /* a shared pointer object is the stray here: weak_from(ok weak, stray shared), weak_lock(ok weak, stray shared) are case 2's business */
-                case 5: fname = "weak_from-dst-again"; TRY(cstl_weak_ptr_from(&wp[NWP], &sp[i2])); break;
+                case 5: fname = "weak_swap-both"; TRY(cstl_weak_ptr_swap(&wp[NWP], &wp[NWP])); break;
                 default: fname = "weak_reset-again"; TRY(cstl_weak_ptr_reset(&wp[NWP])); break;
                 }
                 break;
